@@ -330,6 +330,7 @@ def _line_unit(cls):
                 k = nx.val - 1
                 ctx.check("C19 samples run from (x1, y1) to (x2, y2), both ends included: linspace(x1, x2, k+1) and linspace(y1, y2, k+1) with the same k >= 1",
                           AND(ax.val == x1, bx.val == x2, ay.val == y1, by.val == y2, nx.val == ny.val, k >= 1, z3.IsInt(k)), None, None, "post")
+            ctx.trust("sample arrays are modelled by ONE generic element: numpy arithmetic, the interpolator called on whole arrays, zip and column_stack act element by element (assumed; bounded stand-in on real numpy)")
             ctx.trust("numpy.linspace(a, b, n): n evenly spaced samples, first == a and last == b (assumed; exercised by the bounded stand-in)")
         else:
             ok = len(made) == 1 and made[0][0] == "draw.line" and len(made[0][1]) == 4 and not made[0][2]
